@@ -7,7 +7,7 @@ import casadi as ca
 from .. import oracles as O
 from ..caseval import Ev
 from ..groups import extra_euler_specs, base_specs, product_specs, ProductSpec, SO3Spec, SE3Spec, SE23Spec, SE2Spec, SO2Spec, angle_mix
-from .lie_common import (inplace_history, lib_call, euler_ok, algebra_corpus, group_corpus, run_contract_slice, configs_for_shard,
+from .lie_common import (inplace_history, sparse_param_form, lib_call, euler_ok, algebra_corpus, group_corpus, run_contract_slice, configs_for_shard,
                          rot_angles, so3_of, parts_of, algebra_switch_points)
 
 PI = np.pi
@@ -37,6 +37,7 @@ def run(ctx):
         run_contract_slice(ctx, base_specs(), 40 if ctx.quick else 400, ops=("log",))
     if ctx.shard == 1 % ctx.nshards:
         inplace_history(ctx, base_specs() + product_specs(cfg_rng, "quick")[:2], 4 if ctx.quick else 40, ops=("log", "exp"))
+        sparse_param_form(ctx, base_specs() + product_specs(cfg_rng, "quick")[:2], ops=("log", "exp"))
 
 
 def principal_cross_representation(ctx, N):
